@@ -11,7 +11,7 @@ LEVEL = "proof"
 PROPS = "Image/Props_C04.v"
 COQ_FILES = ["Lib/SortSearch.v", "Image/PathTree.v", "Image/PathTreeProofs.v", "Image/PathMap.v", "Image/Fill.v", "Image/Overlay.v",
              "Image/ImageCases.v", "Image/ViewEq.v", "Image/Witnesses.v", "Image/FillProofs.v", "Image/FoldProofs.v", "Image/Bounded.v",
-             "Image/BoundedProofs.v", "Image/Props_C04.v"]
+             "Image/BoundedProofs.v", "Image/DomainP.v", "Image/ViewProofs.v", "Image/Props_C04.v"]
 PT_CORR = "pathtree.Node Insert/Get/GetChildren/Remove/Walk (Go) vs Image.PathTree trie (Coq, vm_compute); oracle: Image.PathMap finite map"
 CORR = ("image.FromV1Image + ChainLayer.FS Stat/Open+Read/ReadDir/fs.WalkDir (Go) vs Image.Fill load/stat/read/readdir/walk_fs "
         "(Coq, vm_compute)")
@@ -27,7 +27,7 @@ META = {
                   "after whiteout, requirer deleting content of earlier views, order-dependent pruning), each replayed on the real code "
                   "on every run; two further defects (deep whiteout leak, directory replaced by file) were repaired in /repo and their "
                   "witnesses run first as a regression corpus. The positive statement view_eq_overlay_on_D is stated in full "
-                  "(ViewEq.view_eq_overlay_on_D_statement); proved of it: view_eq_overlay_on_D_bounded_partial (every image of two "
+                  "(ViewEq.view_eq_overlay_on_D_statement); PROVED for lookups on the sub-domain Dp (DomainP.v: no links, explicit parent entries; any number of layers and members) in every view before the final pruning and every view but the last after it (view_lookup_newest, spec_lookup_newest, view_eq_overlay_on_Dp_unpruned, view_eq_overlay_on_Dp); also view_eq_overlay_on_D_bounded_partial (every image of two "
                   "small-scope families, inside Coq) and the structural lemmas view_is_fold_of_fills / fill_never_overwrites / fill_is_per_chain_layer / fill_step_refines_map / "
                   "in_whiteout_dir_characterised / whiteouts_hidden (all images). On every run the model is compared with the real "
                   "code on all generated images (all streams, all configs), the OCI spec is evaluated on the real code's own output for "
@@ -54,21 +54,21 @@ def _eval_shards(ctx, tag, vfile, per, nshards=14, extra=""):
     header = _cases_header(txt)
     chunks = re.findall(r"(Definition (cases_\d+) : list icase :=\n.*?\]\.\n)", txt, re.S)
     if not chunks:
-        return [], [], {"in_domain": 0, "in_strict": 0, "order_sensitive": 0, "sensitive_indices": []}
+        return [], [], {"in_domain": 0, "in_strict": 0, "order_sensitive": 0, "in_proved": 0, "sensitive_indices": []}
     groups = [chunks[k::nshards] for k in range(nshards)]
     idx_groups = [list(range(len(chunks)))[k::nshards] for k in range(nshards)]
 
     def one(g):
         if not groups[g]:
-            return [], [], [0, 0, 0], []
+            return [], [], [0, 0, 0, 0], []
         body = "".join(b for b, _ in groups[g])
         allc = " ++ ".join(n for _, n in groups[g])
-        v = header + body + (
+        v = header + "From Scalibr Require Import Image.DomainP.\n" + body + (
             "Definition shard := %s.\n"
             "Definition corr_bad := Eval vm_compute in bad_indices case_model_ok shard 0.\nPrint corr_bad.\n"
             "Definition spec_bad := Eval vm_compute in bad_indices case_spec_ok shard 0.\nPrint spec_bad.\n"
             "Definition counts := Eval vm_compute in [length (filter in_domain shard); length (filter in_strict_domain shard); "
-            "length (filter order_sensitive shard)].\nPrint counts.\n"
+            "length (filter order_sensitive shard); length (filter (fun c => Dp (c_cfg c) (c_img c)) shard)].\nPrint counts.\n"
             "Definition sens_idx := Eval vm_compute in bad_indices (fun c => negb (order_sensitive c)) shard 0.\nPrint sens_idx.\n" % allc)
         rc, out = ctx.run_cases("C04_%s_shard_%d" % (tag, g), v, timeout=3000)
         cb = vlib.parse_printed_list(out, "corr_bad")
@@ -83,7 +83,7 @@ def _eval_shards(ctx, tag, vfile, per, nshards=14, extra=""):
             return idx_groups[g][i // per] * per + (i % per)
         return [glob(i) for i in cb], [glob(i) for i in sb], cn, [glob(i) for i in sn]
 
-    corr, spec, cn, sens = [], [], [0, 0, 0], []
+    corr, spec, cn, sens = [], [], [0, 0, 0, 0], []
     with ThreadPoolExecutor(max_workers=nshards) as ex:
         for cb, sb, c, sn in ex.map(one, range(nshards)):
             corr += cb
@@ -96,7 +96,7 @@ def _eval_shards(ctx, tag, vfile, per, nshards=14, extra=""):
                 os.remove(os.path.join(vlib.BUILD, "cases", "C04_%s_shard_%d%s" % (tag, g, ext)))
             except FileNotFoundError:
                 pass
-    return sorted(corr), sorted(spec), {"in_domain": cn[0], "in_strict": cn[1], "order_sensitive": cn[2],
+    return sorted(corr), sorted(spec), {"in_domain": cn[0], "in_strict": cn[1], "order_sensitive": cn[2], "in_proved": cn[3],
                                         "sensitive_indices": sorted(sens)}
 
 
@@ -305,7 +305,7 @@ def run(ctx):
         ecorr, espec, ecounts = _eval_shards(ctx, "exh", evfile, 40)
         ctx.log("exhaustive 2x2: %d images, corr_bad=%d spec_bad=%d in_domain=%d" % (len(ecases), len(ecorr), len(espec), ecounts["in_domain"]))
         exh = {"images": len(ecases), "corr_bad": len(ecorr), "spec_bad": len(espec), "inside_D_weak": ecounts["in_domain"],
-               "inside_D_strict": ecounts["in_strict"],
+               "inside_D_strict": ecounts["in_strict"], "inside_proved_domain_Dp": ecounts["in_proved"],
                "family": "2 layers x <= 2 members over the names a, b, a/b x {directory, regular file, whiteout}, default config"}
         if espec or ecorr:
             # fold into the main verdict (indices continue after the generated cases)
@@ -318,8 +318,8 @@ def run(ctx):
     # a case whose outcome changes between loads although the model says it cannot: correspondence break
     unpredicted = [i for i in unstable if i not in sens]
     corr_bad = sorted(set(corr_bad) | set(unpredicted))
-    ctx.log("corr_bad=%d spec_bad=%d in_domain=%d strict=%d order_sensitive=%d unstable=%d" % (
-        len(corr_bad), len(spec_bad), counts["in_domain"], counts["in_strict"], counts["order_sensitive"], len(unstable)))
+    ctx.log("corr_bad=%d spec_bad=%d in_domain=%d strict=%d proved_Dp=%d order_sensitive=%d unstable=%d" % (
+        len(corr_bad), len(spec_bad), counts["in_domain"], counts["in_strict"], counts["in_proved"], counts["order_sensitive"], len(unstable)))
     # evidence
     seen = set()
     streams, nlayers, cfgs, kinds = {}, {}, {}, {}
@@ -353,6 +353,7 @@ def run(ctx):
         "input_distribution": {"streams": streams, "layers": {str(k): v for k, v in sorted(nlayers.items())},
                                "configs": cfgs, "entry_kinds": kinds,
                                "inside_D_weak": counts["in_domain"], "inside_D_strict": counts["in_strict"],
+                               "inside_proved_domain_Dp": counts["in_proved"],
                                "fraction_rejected_by_D": round(1 - counts["in_domain"] / max(1, len(cases)), 3),
                                "order_sensitive_cases": counts["order_sensitive"],
                                "load_errors": sum(1 for c in cases if c.get("load_err")),
